@@ -6,6 +6,7 @@ Line-protocol driver for the C01 model (kv manifest / crash recovery).
   createfam <name> <threshold>
   fstart <name> <seqs: l:s,l:s|-> <kvs: k:v,k:v|->
   fcommit <name> <size>
+  flushfail <name>                        Commit whose table close fails (I/O error): commits nothing
   compact <name> <size>
   edit <name> <log> <log> ...             rollup-bookkeeping commit
   close
@@ -240,6 +241,13 @@ def step (s : DSt) (ws : List String) : DSt × String :=
       | some (m', ops) => ({ s.push ops with mem := some m' }, s!"ok fs={traceTok ops} st={stateTok m'}")
       | none => (s, "bad-op")
     | _, _, _ => (s, "bad-op")
+  | ["flushfail", name] =>
+    match s.mem, name.toNat? with
+    | some m, some n =>
+      match flushFail m n with
+      | some (m', ops) => ({ s.push ops with mem := some m' }, s!"ok fs={traceTok ops} st={stateTok m'}")
+      | none => (s, "bad-op")
+    | _, _ => (s, "bad-op")
   | ["compact", name, size] =>
     match s.mem, name.toNat?, size.toNat? with
     | some m, some n, some sz =>
